@@ -71,6 +71,7 @@ type Contract struct {
 	Opts       map[string]string
 	CallSites  map[string][]*Clause // function type name -> obligations at dynamic call sites
 	LemmaParams string // lemma: Go parameter list
+	Implements string // interface contract this method must satisfy (behavioural subtyping)
 	Induction  string // lemma: induction variable
 }
 
@@ -223,6 +224,8 @@ func ParseContracts(path string) (*ContractFile, error) {
 		switch word {
 		case "props":
 			cur.Props = strings.Fields(rest)
+		case "implements":
+			cur.Implements = rest
 		case "forall":
 			cur.LemmaParams = rest
 		case "induction":
